@@ -125,3 +125,51 @@ func TestSpin(t *testing.T) {
 		t.Fatalf("stuck=%q err=%v", r.Stuck, r.EngineErr)
 	}
 }
+
+// A self-deadlock and a lock-order cycle must be reported as violations, every time, without taking the process down.
+func TestDeadlock(t *testing.T) {
+	self := &sched.Harness{Name: "self", Setup: func(x *sched.Exec) {
+		var mu vsync.Mutex
+		res := make(chan int, 1)
+		x.Go("a", func() {
+			go func() { // an untracked helper that blocks on a channel forever
+				<-make(chan int)
+			}()
+			x.Go("worker", func() {
+				mu.Lock()
+				defer mu.Unlock()
+				func() {
+					mu.Lock() // never granted
+					defer mu.Unlock()
+				}()
+				res <- 1
+			})
+			<-res // waits for the worker forever
+		})
+		x.Go("b", func() {
+			mu.Lock()
+			mu.Unlock()
+		})
+	}}
+	for i := 0; i < 3; i++ {
+		st := sched.Explore(t, self, sched.Options{Bound: 1})
+		if len(st.Found) == 0 || st.EngineErrors != 0 {
+			t.Fatalf("self-deadlock: found=%d engine=%d %s", len(st.Found), st.EngineErrors, st.EngineErrMsg)
+		}
+		t.Logf("self: execs=%d %s", st.Execs, st.Found[0].Key)
+	}
+	cycle := &sched.Harness{Name: "cycle", Setup: func(x *sched.Exec) {
+		var m1, m2 vsync.Mutex
+		x.Go("a", func() { m1.Lock(); m2.Lock(); m2.Unlock(); m1.Unlock() })
+		x.Go("b", func() { m2.Lock(); m1.Lock(); m1.Unlock(); m2.Unlock() })
+	}}
+	st := sched.Explore(t, cycle, sched.Options{Bound: 0})
+	if len(st.Found) != 0 {
+		t.Fatalf("cycle at bound 0: %v", st.Found[0].Message)
+	}
+	st = sched.Explore(t, cycle, sched.Options{Bound: 1})
+	if len(st.Found) == 0 || st.EngineErrors != 0 {
+		t.Fatalf("lock-order cycle not found: execs=%d engine=%d %s", st.Execs, st.EngineErrors, st.EngineErrMsg)
+	}
+	t.Logf("cycle: execs=%d outcomes=%v %s", st.Execs, st.Outcomes, st.Found[0].Key)
+}
